@@ -126,12 +126,15 @@ pub fn jobs(tier: Tier) -> Vec<Job> {
     match tier {
         Tier::Quick => {
             v.extend(sweep_jobs("c01-sweep", 2, &[SpecId::BERLIN, SpecId::CANCUN, SpecId::PRAGUE], &[1, 2], &[false, true], 1, true));
+            // the oldest rule sets (no EIP-161 state clearing, contracts created with nonce 0, gas
+            // price may be zero): two workers, nonce check on
+            v.extend(sweep_jobs("c01-sweep", 2, &[SpecId::FRONTIER, SpecId::SPURIOUS_DRAGON], &[2], &[false], 1, true));
         }
         Tier::Thorough => {
             v.extend(sweep_jobs(
                 "c01-sweep",
                 3,
-                &[SpecId::BERLIN, SpecId::LONDON, SpecId::SHANGHAI, SpecId::CANCUN, SpecId::PRAGUE, SpecId::OSAKA],
+                &[SpecId::FRONTIER, SpecId::TANGERINE, SpecId::SPURIOUS_DRAGON, SpecId::BERLIN, SpecId::LONDON, SpecId::SHANGHAI, SpecId::CANCUN, SpecId::PRAGUE, SpecId::OSAKA],
                 &[1, 2, 3],
                 &[false, true],
                 1,
